@@ -37,7 +37,11 @@
 (*       instance to have become idle again, i.e. a later probe); that it  *)
 (*       is shut down is part of "instances = 0" at the end                *)
 (*  A dispatcher that dies under the faults it is meant to survive makes   *)
-(*  no progress at all: Crashed is never allowed.                          *)
+(*  no progress at all: Crashed is never allowed.  (The drivers record     *)
+(*  Crashed only for a Go panic whose first frame outside the runtime is   *)
+(*  in non-test code of lib/dispatchcloud; timeouts, kills, failed set-up  *)
+(*  and panics in harness or test-support code are infrastructure: such    *)
+(*  runs are dropped and counted, exit 2 if there are more than two.)      *)
 (* A run that drained before the deadline satisfies the contract by        *)
 (* construction (that is what "drained" means).                            *)
 (***************************************************************************)
@@ -57,8 +61,10 @@ ProcStartOn(w) ==
     /\ used' = IF w \in brk THEN used \cup {w} ELSE used
     /\ UNCHANGED <<lst, brk>>
 
-\* the operator tells the dispatcher to use the instance (management API "run"): one more start may
-\* follow before the next probe drains it again
+\* the operator changes the instance's idle behaviour (management API); the request is recorded
+\* BEFORE it is made ("any") and again when it has been carried out: from the first of the two on the
+\* dispatcher may have been told to use the instance, one more start may follow before the next probe
+\* drains it again
 OperatorRun(w) == used' = used \ {w} /\ UNCHANGED <<lst, brk>>
 
 \* the dispatcher is replaced: the new one learns "broken" from its own first probe
